@@ -453,6 +453,13 @@ class TDMProgram(Program):
         Args:
             shots (int): the number of times the circuit should be repeated
         """
+        # refuse before anything is changed (in particular the stored number of shots)
+        if self.space_unrolled_circuit is not None:
+            raise ValueError(
+                "Program is space-unrolled and cannot be unrolled. Must be rolled (by calling the"
+                "'roll()' method) before unrolling."
+            )
+
         _locked = self.locked
         if self.locked:
             self.locked = False
@@ -460,17 +467,12 @@ class TDMProgram(Program):
         if self.unrolled_circuit is not None:
             if self._unrolled_shots == shots:
                 self.circuit = self.unrolled_circuit
+                self.locked = _locked
                 return
             self.roll()
 
         # store the number of shots in the unrolled circuit
         self._unrolled_shots = shots
-
-        if self.space_unrolled_circuit is not None:
-            raise ValueError(
-                "Program is space-unrolled and cannot be unrolled. Must be rolled (by calling the"
-                "'roll()' method) before unrolling."
-            )
 
         self._unroll_program(shots, space=False)
         self.locked = _locked
